@@ -412,6 +412,9 @@ class SymExec:
         m = re.match(r"\((_\d+)\.(\d+): ([^)]*)\)$", s)
         if m:
             return "%s.%s" % (m.group(1), m.group(2)), m.group(3)
+        m = re.match(r"\((.*)\.(\d+): ([\w:<>]+)\)$", s)     # downcast / nested projections: ((_5 as U16).0: u16)
+        if m:
+            return s, m.group(3)
         m = re.match(r"\(\*(_\d+)\)$", s)
         if m:
             return "*" + m.group(1), None
@@ -658,7 +661,14 @@ class SymExec:
                 args = [self.operand(path, a) for a in t["args"]]
                 path.events.append(("call", bname, t["func"], args, t["args"]))
                 res = self.call_model(self, path, t, args)
+                if res is None:
+                    res = self.builtin_model(path, t, args)
                 if isinstance(res, str) and res == "DIVERGE":
+                    continue
+                if isinstance(res, str) and res == "HANDLED":
+                    tg = dict(t["targets"]).get("return")
+                    if tg:
+                        work.append((path, tg, visits))
                     continue
                 if res is None:
                     dty = self.place_of(t["dest"])[1] or self.local_ty(t["dest"]) if t["dest"] else None
@@ -672,6 +682,38 @@ class SymExec:
             else:
                 raise Inconclusive("E3: unsupported terminator in %s %s: %s" % (self.fn.name, bname, t["text"]))
         return self
+
+    def builtin_model(self, path, t, args):
+        """std integer helpers with exact bit-vector semantics."""
+        m = re.match(r"core::num::<impl (u8|u16|u32|u64|usize)>::(saturating_sub|saturating_add|wrapping_sub|wrapping_add|checked_sub|checked_add|min|max)$", t["func"])
+        if not m or len(args) != 2 or args[0] is None or args[1] is None:
+            return None
+        ty, op = m.group(1), m.group(2)
+        a, b = args
+        if a.size() != b.size():
+            return None
+        w = a.size()
+        ones = z3.BitVecVal((1 << w) - 1, w)
+        if op == "saturating_sub":
+            return z3.If(z3.ULT(a, b), z3.BitVecVal(0, w), a - b)
+        if op == "saturating_add":
+            return z3.If(z3.ULT(a + b, a), ones, a + b)
+        if op == "wrapping_sub":
+            return a - b
+        if op == "wrapping_add":
+            return a + b
+        if op == "min":
+            return z3.If(z3.ULT(a, b), a, b)
+        if op == "max":
+            return z3.If(z3.ULT(a, b), b, a)
+        if op in ("checked_sub", "checked_add") and t["dest"]:
+            pl, _ = self.place_of(t["dest"])
+            ok = z3.UGE(a, b) if op == "checked_sub" else z3.UGE(a + b, a)
+            val = a - b if op == "checked_sub" else a + b
+            path.env["discr(" + pl + ")"] = z3.If(ok, z3.BitVecVal(1, 64), z3.BitVecVal(0, 64))
+            path.env["((%s as Some).0: %s)" % (pl, ty)] = val
+            return "HANDLED"
+        return None
 
     def feasible(self, path):
         s = z3.Solver()
